@@ -2110,6 +2110,7 @@ class PyCdlib:
                                                 self.udf_file_set.root_dir_icb.log_block_num,
                                                 None)
 
+        empty_file_inodes = {}  # type: Dict[int, inode.Inode]
         udf_file_entries = collections.deque([self.udf_root])
         while udf_file_entries:
             udf_file_entry = udf_file_entries.popleft()
@@ -2172,8 +2173,12 @@ class PyCdlib:
                         if self.eltorito_boot_catalog is not None and abs_file_data_extent == self.eltorito_boot_catalog.extent_location():
                             self.eltorito_boot_catalog.add_dirrecord(next_entry)
                         else:
+                            # Zero-length files all have data location 0, but in
+                            # UDF hard links of one file share a File Entry.
                             if abs_file_data_extent != 0 and abs_file_data_extent in extent_to_inode:
                                 ino = extent_to_inode[abs_file_data_extent]
+                            elif abs_file_data_extent == 0 and abs_file_entry_extent in empty_file_inodes:
+                                ino = empty_file_inodes[abs_file_entry_extent]
                             else:
                                 ino = inode.Inode()
                                 ino.parse(abs_file_data_extent,
@@ -2181,6 +2186,8 @@ class PyCdlib:
                                           self._cdfp, self.logical_block_size)
                                 if abs_file_data_extent != 0:
                                     extent_to_inode[abs_file_data_extent] = ino
+                                else:
+                                    empty_file_inodes[abs_file_entry_extent] = ino
                                 self.inodes.append(ino)
 
                             ino.linked_records.append((next_entry, False))
